@@ -290,6 +290,9 @@ void error (const char *fmt, ...) {
 
   va_start (args, fmt);
   len = vsnprintf (msg, sizeof(msg)-1, fmt, args);
+  /* vsnprintf() returns the untruncated length */
+  if (len > (int) sizeof(msg) - 2)
+    len = (int) sizeof(msg) - 2;
   if (len > 0 && msg[len-1] != '\n')
     {
       msg[len] = '\n';
